@@ -50,7 +50,7 @@ MUTANTS = [
     dict(name="c11-murmur-tail2-order", props=["C11"], edits=[(HS, """    elif switch_len == 2:
         k1 = _xor32(k1, _shift32l(tail[1], 8))""", """    elif switch_len == 2:
         k1 = _xor32(k1, _shift32l(tail[1], 16))""")]),
-    dict(name="c11-fh64-len-mod-256", props=["C11", "C14"], edits=[(HS, "    h = seed ^ (key_len * m)", "    h = seed ^ ((key_len & uint64(255)) * m)")]),
+    dict(name="c11-fh64-len-mod-256", props=["C11"], edits=[(HS, "    h = seed ^ (key_len * m)", "    h = seed ^ ((key_len & uint64(255)) * m)")]),
     # ---- C02
     dict(name="c02-nlz-zero-remainder", props=["C02"], edits=[(HL, "    return n - uint8(x)\n", "    if x == zero:\n        return n - uint8(1)\n    return n - uint8(x)\n")]),
     dict(name="c02-merge-skip-last-register", props=["C02"], edits=[(HL, "    for i in range(m):\n        registers[i] = max(registers[i], other_registers[i])", "    for i in range(m - 1):\n        registers[i] = max(registers[i], other_registers[i])")]),
@@ -353,4 +353,64 @@ MUTANTS = [
         )
 
         # Now create class member""")]),
+    # ---- C14
+    dict(name="c14-linear-all-rows-seed-0", props=["C14"], edits=[(CM, """    min_count = uint_maxval
+    for row in range(depth):
+        buckets[row] = fasthash64(key, row) % width
+        count = cms[row, buckets[row]]
+        if count < min_count:
+            min_count = count
+    return min_count
+
+
+@njit(
+    types.void(
+        uint32[:, :],""", """    min_count = uint_maxval
+    for row in range(depth):
+        buckets[row] = fasthash64(key, 0) % width
+        count = cms[row, buckets[row]]
+        if count < min_count:
+            min_count = count
+    return min_count
+
+
+@njit(
+    types.void(
+        uint32[:, :],""")]),
+    dict(name="c14-log8-seed-row-div-2", props=["C14"], edits=[(CM, """def _query_log8(cms, buckets, width, depth, uint_maxval, key):
+    min_count = uint_maxval
+    for row in range(depth):
+        buckets[row] = fasthash64(key, row) % width""", """def _query_log8(cms, buckets, width, depth, uint_maxval, key):
+    min_count = uint_maxval
+    for row in range(depth):
+        buckets[row] = fasthash64(key, row // 2) % width""")]),
+    dict(name="c14-hh-rows-xor-of-one-hash", props=["C14"], edits=[(HH, """    n_added_records[0] += uint64(value)
+    for row in range(depth):
+        col = fasthash64(key, row) % width""", """    n_added_records[0] += uint64(value)
+    h0 = fasthash64(key, 0)
+    for row in range(depth):
+        col = (h0 >> uint64(2 * row)) % width""")]),
+    dict(name="c14-linear-row-seed-wraps-at-4", props=["C14"], edits=[(CM, """    min_count = uint_maxval
+    for row in range(depth):
+        buckets[row] = fasthash64(key, row) % width
+        count = cms[row, buckets[row]]
+        if count < min_count:
+            min_count = count
+    return min_count
+
+
+@njit(
+    types.void(
+        uint32[:, :],""", """    min_count = uint_maxval
+    for row in range(depth):
+        buckets[row] = fasthash64(key, row & 3) % width
+        count = cms[row, buckets[row]]
+        if count < min_count:
+            min_count = count
+    return min_count
+
+
+@njit(
+    types.void(
+        uint32[:, :],""")]),
 ]
